@@ -85,8 +85,78 @@ theorem log_until_installed (pre : List Op) (lvl : Nat) (tgt text : String) (pos
       cases op <;> simp [lstep, isInstall, code_facts.2.2.2.1, code_facts.2.2.2.2.1, Bool.or_assoc]
   simpa [LState.init] using key pre LState.init
 
+/-! ### whole histories -/
+
+/-- the normalized event a record denotes -/
+def norm (r : Record) : Normalized :=
+  { level := r.level, target := r.target, message := r.message, modulePath := r.modulePath, file := r.file, line := r.line }
+
+/-- **C18.bridge_history** — for EVERY sequence of log records (any length), ignore list and collector with a sound hint: what
+the collector receives through the bridge is exactly the accepted, not ignored records, each as its own normalized event, in the
+order they were logged — none lost, none invented, none relabelled, none reordered -/
+theorem bridge_history (ign : List String) (c : Coll) (hc : SoundHint c) (rs : List Record) :
+    rs.flatMap (bridge ign c) =
+      (rs.filter (fun r => c.accepts r.level r.target && !ignored ign r.target)).map norm := by
+  induction rs with
+  | nil => rfl
+  | cons r rs ih =>
+    simp only [List.flatMap_cons, ih, List.filter_cons]
+    by_cases h : c.accepts r.level r.target = true ∧ ignored ign r.target = false
+    · rw [(bridge_iff ign c hc r).1 h]; simp [h.1, h.2, norm]
+    · rw [(bridge_iff ign c hc r).2 h]
+      have : (c.accepts r.level r.target && !ignored ign r.target) = false := by
+        cases ha : c.accepts r.level r.target <;> cases hi : ignored ign r.target <;> simp_all
+      simp [this]
+
+def emitOf : Op → Option (Nat × String × String)
+  | .emit l t x => some (l, t, x)
+  | _ => none
+
+private theorem closed_gate_silent (ops : List Op) (s : LState) (h : s.exists_ = true) : (lrun s ops).flatten = [] := by
+  induction ops generalizing s with
+  | nil => rfl
+  | cons op ops ih =>
+    simp only [lrun, List.flatten_cons]
+    rw [ih _ (exists_monotone s op h)]
+    cases op <;> simp [lstep, h, code_facts.1, code_facts.2.2.2.2.2.1]
+
+/-- **C18.log_history_exact** — with the `log` feature, for EVERY history: the complete sequence of log records is exactly the
+emissions that precede the first collector installation (scoped or global), each with its own level, target and text, in order;
+nothing after it, whatever guards are dropped later -/
+theorem log_history_exact (ops : List Op) :
+    (lrun LState.init ops).flatten = (ops.takeWhile (fun op => !isInstall op)).filterMap emitOf := by
+  have key : ∀ (ops : List Op) (s : LState), s.exists_ = false →
+      (lrun s ops).flatten = (ops.takeWhile (fun op => !isInstall op)).filterMap emitOf := by
+    intro ops
+    induction ops with
+    | nil => intro s _; rfl
+    | cons op rest ih =>
+      intro s hs
+      cases op with
+      | emit l t x =>
+        have e : isInstall (Op.emit l t x) = false := rfl
+        simp only [lrun, List.flatten_cons, lstep, e, Bool.not_false, List.takeWhile_cons, if_true, List.filterMap_cons, emitOf]
+        rw [ih s hs]
+        simp [hs, code_facts.1, code_facts.2.2.2.2.2.1, code_facts.2.2.2.2.2.2.1]
+      | dropGuard =>
+        have e : isInstall Op.dropGuard = false := rfl
+        simp only [lrun, List.flatten_cons, lstep, e, Bool.not_false, List.takeWhile_cons, if_true, List.filterMap_cons, emitOf,
+          List.nil_append]
+        exact ih _ hs
+      | setDefault =>
+        have e : isInstall Op.setDefault = true := rfl
+        simp only [lrun, List.flatten_cons, lstep, e, Bool.not_true, List.takeWhile_cons, List.nil_append]
+        simpa using closed_gate_silent rest _ (by simp [code_facts.2.2.2.1])
+      | setGlobal =>
+        have e : isInstall Op.setGlobal = true := rfl
+        simp only [lrun, List.flatten_cons, lstep, e, Bool.not_true, List.takeWhile_cons, List.nil_append]
+        simpa using closed_gate_silent rest _ (by simp [code_facts.2.2.2.2.1])
+  exact key ops LState.init rfl
+
 /-! ### non-vacuity -/
 example : (lrun LState.init [.emit 3 "t" "a", .setDefault, .emit 3 "t" "b", .dropGuard, .emit 3 "t" "c"]).map (·.length) = [1, 0, 0, 0, 0] := by decide
 example : (bridge ["hyper"] { maxLevel := 3, accepts := fun l t => decide (l ≤ 3) && t != "noisy" } ⟨2, "app", "hi", some "m", none, some 7⟩).length = 1 := by decide
+example : (lrun LState.init [.emit 3 "t" "a", .dropGuard, .emit 2 "u" "b", .setDefault, .emit 3 "t" "c", .dropGuard, .emit 3 "t" "d"]).flatten =
+    [(3, "t", "a"), (2, "u", "b")] := by decide
 
 end C18
